@@ -198,6 +198,7 @@ func (p *Protocol) Start() {
 // Stop shuts down the mini-protocol
 func (p *Protocol) Stop() {
 	p.onceStop.Do(func() {
+		p.verifMsg("stop", nil, 0)
 		close(p.stopChan)
 
 		// Unregister protocol from muxer
@@ -400,6 +401,7 @@ func (p *Protocol) enqueueMessage(msg Message, deliveryChan chan error) error {
 	}
 	p.pendingSendBytes += msgLen
 	p.pendingBytesMu.Unlock()
+	p.verifMsg("enq", msg, msgLen)
 	outbound := outboundMessage{
 		message:      msg,
 		deliveryChan: deliveryChan,
@@ -433,6 +435,7 @@ func (p *Protocol) SendError(err error) {
 		return
 	default:
 	}
+	p.verifErr(err)
 	// Send error to consumer
 	select {
 	case p.config.ErrorChan <- err:
@@ -511,6 +514,8 @@ waitSendReadyChan:
 					return
 				}
 				msg := outbound.message
+				p.verifMsg("deq", msg, 0)
+				p.verifPt("send.afterDequeue")
 				msgCount = msgCount + 1
 
 				// Get raw CBOR from message
@@ -602,6 +607,8 @@ waitSendReadyChan:
 				)
 				return
 			}
+			p.verifPt("send.beforeSegment")
+			p.verifMsg("seg", nil, segmentPayloadLength)
 			if deliveryChan != nil && segmentPayloadLength == payloadBuf.Len() {
 				segment.SetDeliveryChan(deliveryChan)
 			}
@@ -757,6 +764,7 @@ func (p *Protocol) readLoop() {
 				if p.pendingRecvBytes+msgLen <= limit {
 					p.pendingRecvBytes += msgLen
 					p.pendingRecvSizes = append(p.pendingRecvSizes, msgLen)
+					p.verifAdmit("admit", currentState, msgLen, limit)
 					p.pendingBytesMu.Unlock()
 					break
 				}
@@ -774,8 +782,10 @@ func (p *Protocol) readLoop() {
 			p.pendingBytesMu.Lock()
 			p.pendingRecvBytes += msgLen
 			p.pendingRecvSizes = append(p.pendingRecvSizes, msgLen)
+			p.verifAdmit("admit", currentState, msgLen, limit)
 			p.pendingBytesMu.Unlock()
 		}
+		p.verifPt("read.beforeQueue")
 		// Add message to receive queue (blocking with shutdown checks)
 		select {
 		case p.recvQueueChan <- msg:
@@ -824,6 +834,7 @@ func (p *Protocol) recvLoop() {
 			return
 		case msg := <-p.recvQueueChan:
 			// Handle message
+			p.verifPt("recv.beforeHandle")
 			if err := p.handleMessage(msg); err != nil {
 				if errors.Is(err, ErrProtocolShuttingDown) {
 					// Graceful shutdown in progress
@@ -842,6 +853,7 @@ func (p *Protocol) recvLoop() {
 					p.pendingRecvBytes = 0
 				}
 			}
+			p.verifAdmit("release", State{}, 0, 0)
 			p.pendingBytesMu.Unlock()
 		}
 	}
@@ -935,6 +947,7 @@ func (p *Protocol) stateLoop(ch <-chan protocolStateTransition) {
 			return
 		case t := <-ch:
 			nextState, err := p.nextState(p.getCurrentState(), t.msg)
+			p.verifTrans(t.msg, nextState, err)
 			if err != nil {
 				t.errorChan <- fmt.Errorf(
 					"%s: error handling protocol state transition: %w",
@@ -1018,5 +1031,7 @@ func (p *Protocol) handleMessage(msg Message) error {
 	}
 
 	// Call handler function
+	p.verifMsg("deliver", msg, 0)
+	defer p.verifMsg("handled", msg, 0)
 	return p.config.MessageHandlerFunc(msg)
 }
